@@ -14,7 +14,7 @@ const (
 )
 
 var tempCodes = []int16{5, 6, 7, 19, 3}
-var permCodes = []int16{10, 17, 29, 18, 45} // MessageSizeTooLarge, InvalidTopic, TopicAuthorizationFailed, RecordListTooLarge, UnsupportedForMessageFormat... (non-temporary in the library's classification)
+var permCodes = []int16{10, 17, 29, 18, 45, -1} // MessageSizeTooLarge, InvalidTopic, TopicAuthorizationFailed, RecordListTooLarge, UnsupportedForMessageFormat... (non-temporary in the library's classification)
 
 // GenCase draws a scenario.  stratum selects a fixed shape (so that the
 // essential classes are always present); pass -1 for free generation.
